@@ -1,8 +1,9 @@
 """C14  Workspace modes and allocation failure are handled without corruption.
 
-Model: SluMem.tla (the caller's workspace as the two-ended stack of p?memory.c: work arrays of
-running workers pairwise disjoint and inside the buffer for every interleaving of worker start /
-finish; the pre-repair "release at the first exit" policy violates it -- F13), SluApi (query: no
+Model: SluMem.tla (the caller's workspace as the two-ended stack of p?memory.c: integer and real work arrays of
+running workers pairwise disjoint, aligned and inside the buffer for every interleaving of worker start /
+finish, for buffers at an aligned and at an odd address; the pre-repair "release at the first exit" policy
+violates it -- F13 -- and so does the pre-repair alignment of the real array in a second critical section -- F24), SluApi (query: no
 factorization, positive estimate, nothing retained; user workspace: factors inside the buffer,
 nothing outside written; failure: info > n or the library's diagnostic exit, never success).
 Binding (fault enumeration derived from the model's request sequence):
@@ -23,21 +24,27 @@ def mem_model(ck):
     wd = os.path.join(ck.dir, "mem")
     tlc.stage(wd)
     res = {}
-    for pol, P, size, head, work in (("last", 3, 10, 3, 2), ("last", 4, 9, 2, 2), ("last", 3, 6, 3, 2), ("first", 3, 10, 3, 2)):
-        cfg = os.path.join(wd, "M_%s_%d_%d.cfg" % (pol, P, size))
+    # (tail policy, alignment policy, offset of the buffer from an 8-byte boundary in 4-byte units, P, size, head, integer array, real array)
+    for pol, al, off, P, size, head, ineed, dneed in (("last", "inside", 1, 3, 30, 3, 2, 4), ("last", "inside", 0, 3, 30, 3, 2, 4), ("last", "inside", 1, 4, 26, 2, 1, 2),
+                                                     ("last", "inside", 1, 3, 17, 3, 2, 4), ("last", "second", 0, 3, 30, 3, 2, 4),
+                                                     ("first", "inside", 1, 3, 30, 3, 2, 4), ("last", "second", 1, 3, 30, 3, 2, 4)):
+        cfg = os.path.join(wd, "M_%s_%s_%d_%d_%d.cfg" % (pol, al, off, P, size))
         with open(cfg, "w") as f:
-            f.write('CONSTANTS P = %d Size = %d HeadNeed = %d WorkNeed = %d TailPolicy = "%s"\nSPECIFICATION Spec\n'
-                    'INVARIANTS StackOK WorkDisjoint WorkInside AllReleased\nCHECK_DEADLOCK FALSE\n' % (P, size, head, work, pol))
+            f.write('CONSTANTS P = %d Size = %d HeadNeed = %d INeed = %d DNeed = %d Off = %d TailPolicy = "%s" AlignPolicy = "%s"\nSPECIFICATION Spec\n'
+                    'INVARIANTS StackOK WorkDisjoint WorkInside WorkAligned AllReleased\nCHECK_DEADLOCK FALSE\n' % (P, size, head, ineed, dneed, off, pol, al))
         r = tlc.run(wd, "SluMem", cfg, workers=2, timeout=300)
         ck.model(r["distinct"], r["generated"])
-        key = "mem:%s:P%d:size%d" % (pol, P, size)
+        key = "mem:%s:%s:off%d:P%d:size%d" % (pol, al, off, P, size)
         ck.case(key)
-        if pol == "last" and not r["ok"]:
+        # the code as it is (release at the last exit, alignment inside one request) and the old alignment on an aligned buffer must hold
+        if pol == "last" and (al == "inside" or off == 0) and not r["ok"]:
             ck.violation(key, "SluMem violates %s" % (r["violated"] or r["errors"][:2]))
         if pol == "first":
             res["model_rejects_release_at_first_exit"] = bool(r["violated"])
+        if al == "second" and off == 1:
+            res["model_rejects_alignment_in_a_second_critical_section"] = bool(r["violated"])
     ck.notes.update(res)
-    return res.get("model_rejects_release_at_first_exit", False)
+    return res.get("model_rejects_release_at_first_exit", False) and res.get("model_rejects_alignment_in_a_second_critical_section", False)
 
 
 HEAD = ["ienv p1=4 p2=2 p3=4", "track on=1"]
@@ -219,7 +226,7 @@ def main(tier):
     fault_enumeration(ck, quick, rng, wd)
     rc = ck.finish()
     if not sens:
-        print("SELFTEST-FAIL: SluMem does not reject the release-at-first-exit policy")
+        print("SELFTEST-FAIL: SluMem does not reject the release-at-first-exit policy / the alignment in a second critical section")
         return 3
     return rc
 
